@@ -22,7 +22,31 @@ template <class T> static std::vector<T> nativeGj44 (const std::vector<T>& a)
     for (int i = 0; i < 4; ++i) for (int j = 0; j < 4; ++j) o.push_back (r.x[i][j]);
     return o;
 }
-static int native_gj44 = (symns::natives ()["M44.gjInverse"] = symns::Native{&nativeGj44<double>, &nativeGj44<float>}, 0);
+// the callee at exact fractions, for the Lean-side validation (`rattv`): the EXACT inverse, or the identity for a singular
+// matrix, computed by plain Gauss elimination with first-non-zero pivoting (deliberately not the algorithm of gjInverse).  The
+// emitted Lean text calls the hand model `M44.gjInverse` at Rat, which is proved (Props/C06: M44_gjInverse_spec / _singular) to
+// be exactly that; so the comparison validates the emitted CALL (which function, on which argument, in which arm).
+static std::vector<symns::Frac> exactInverse44 (const std::vector<symns::Frac>& a)
+{
+    using symns::Frac;
+    Frac w[4][8];
+    for (int i = 0; i < 4; ++i) for (int j = 0; j < 4; ++j) { w[i][j] = a[4 * i + j]; w[i][4 + j] = Frac (i == j ? 1 : 0); }
+    bool singular = false;
+    for (int c = 0; c < 4 && !singular; ++c)
+    {
+        int p = -1;
+        for (int r = c; r < 4; ++r) if (w[r][c] != Frac (0)) { p = r; break; }
+        if (p < 0) { singular = true; break; }
+        if (p != c) for (int j = 0; j < 8; ++j) std::swap (w[p][j], w[c][j]);
+        Frac d = w[c][c];
+        for (int j = 0; j < 8; ++j) w[c][j] = w[c][j] / d;
+        for (int r = 0; r < 4; ++r) if (r != c) { Frac f = w[r][c]; if (f != Frac (0)) for (int j = 0; j < 8; ++j) w[r][j] = w[r][j] - f * w[c][j]; }
+    }
+    std::vector<Frac> o;
+    for (int i = 0; i < 4; ++i) for (int j = 0; j < 4; ++j) o.push_back (singular ? Frac (i == j ? 1 : 0) : w[i][4 + j]);
+    return o;
+}
+static int native_gj44 = (symns::natives ()["M44.gjInverse"] = symns::Native{&nativeGj44<double>, &nativeGj44<float>, &exactInverse44}, 0);
 
 using namespace IMATH_INTERNAL_NAMESPACE;
 #include "ops_c06.h"
